@@ -88,6 +88,7 @@ type HarnessResult struct {
 	ExploreS       float64           `json:"explore_s"`
 	Obligations    int               `json:"obligations"`
 	Discharged     int               `json:"discharged"`
+	Folded         int               `json:"folded"`
 	Reached        []string          `json:"reached"`
 	Encoded        map[string]int    `json:"encoded"`
 	Unwound        []string          `json:"unwound,omitempty"`
@@ -305,7 +306,7 @@ func runHarness(prog *ssa.Program, fn *ssa.Function, hs HarnessSpec, hr *Harness
 	}()
 	hr.ExploreS = time.Since(t1).Seconds()
 	hr.Paths, hr.Branches, hr.Queries, hr.SolverS = e.paths, e.branches, sol.Queries, sol.Time.Seconds()
-	hr.Obligations, hr.Discharged = e.nObl, e.nDischarged
+	hr.Obligations, hr.Discharged, hr.Folded = e.nObl, e.nDischarged, e.nTrivial
 	hr.Blocked = e.blocked
 	for k := range e.reached {
 		hr.Reached = append(hr.Reached, k)
